@@ -458,6 +458,22 @@ func init() {
 		call(fr.i, fr, token.NoPos, args[1], nil)
 		return nil
 	}
+	// sync.Pool: never retains anything (allowed by its contract): Get calls New
+	syncExternals["(*sync.Pool).Get"] = func(fr *frame, args []value) value {
+		s := ptrStruct(fr, args[0])
+		newFn := s[len(s)-1]
+		if c, ok := newFn.(*closure); ok && c == nil {
+			return iface{}
+		}
+		if newFn == nil {
+			return iface{}
+		}
+		if f, ok := newFn.(*ssa.Function); ok && f == nil {
+			return iface{}
+		}
+		return call(fr.i, fr, token.NoPos, newFn, nil)
+	}
+	syncExternals["(*sync.Pool).Put"] = func(fr *frame, args []value) value { return nil }
 	// sync.WaitGroup {noCopy; state atomic.Uint64; sema uint32}: we keep the counter in sema
 	syncExternals["(*sync.WaitGroup).Add"] = func(fr *frame, args []value) value {
 		s := ptrStruct(fr, args[0])
@@ -508,6 +524,12 @@ func rwLock(fr *frame, s structure, write bool) {
 
 // stubSets are per-harness stub collections selectable from checks/<id>.json.
 var stubSets = map[string]map[string]externalFn{
+	// a file system in which nothing exists: every open fails
+	"os-nofile": {
+		"os.OpenFile": func(fr *frame, args []value) value {
+			return tuple{(*value)(nil), fr.i.mkError("open: no such file or directory")}
+		},
+	},
 	// os.Pipe without the kernel: two *os.File objects sharing an in-engine
 	// byte queue; Read blocks (scheduler) until data or the writer closes.
 	"os-pipe": {
@@ -533,9 +555,15 @@ var stubSets = map[string]map[string]externalFn{
 			return iface{}
 		},
 		"(*os.File).Read": func(fr *frame, args []value) value {
+			if p, ok := args[0].(*value); ok && p == nil {
+				return tuple{0, loadGlobalErr(fr, "os", "ErrInvalid")}
+			}
 			e := pipeEndOf(fr, args[0])
-			if e == nil || e.write {
-				panic(pathEnd{stUnsupported, "os.File.Read on something other than a stub pipe's read end"})
+			if e != nil && e.write {
+				return tuple{0, fr.i.mkError("read: bad file descriptor")}
+			}
+			if e == nil {
+				panic(pathEnd{stUnsupported, "os.File.Read on something other than a stub pipe"})
 			}
 			b := args[1].([]value)
 			if len(b) == 0 {
@@ -551,9 +579,15 @@ var stubSets = map[string]map[string]externalFn{
 			return tuple{n, iface{}}
 		},
 		"(*os.File).Write": func(fr *frame, args []value) value {
+			if p, ok := args[0].(*value); ok && p == nil {
+				return tuple{0, loadGlobalErr(fr, "os", "ErrInvalid")}
+			}
 			e := pipeEndOf(fr, args[0])
-			if e == nil || !e.write {
-				panic(pathEnd{stUnsupported, "os.File.Write on something other than a stub pipe's write end"})
+			if e != nil && !e.write {
+				return tuple{0, fr.i.mkError("write: bad file descriptor")}
+			}
+			if e == nil {
+				panic(pathEnd{stUnsupported, "os.File.Write on something other than a stub pipe"})
 			}
 			b := args[1].([]value)
 			schedYield(fr)
@@ -564,9 +598,15 @@ var stubSets = map[string]map[string]externalFn{
 			return tuple{len(b), iface{}}
 		},
 		"(*os.File).WriteString": func(fr *frame, args []value) value {
+			if p, ok := args[0].(*value); ok && p == nil {
+				return tuple{0, loadGlobalErr(fr, "os", "ErrInvalid")}
+			}
 			e := pipeEndOf(fr, args[0])
-			if e == nil || !e.write {
-				panic(pathEnd{stUnsupported, "os.File.WriteString on something other than a stub pipe's write end"})
+			if e != nil && !e.write {
+				return tuple{0, fr.i.mkError("write: bad file descriptor")}
+			}
+			if e == nil {
+				panic(pathEnd{stUnsupported, "os.File.WriteString on something other than a stub pipe"})
 			}
 			var b []value
 			switch x := args[1].(type) {
@@ -622,4 +662,18 @@ func loadGlobalErr(fr *frame, pkg, name string) value {
 		panic(pathEnd{stUnsupported, "no global " + pkg + "." + name})
 	}
 	return *fr.i.globalAddr(g)
+}
+
+// stubbable: functions some harness may stub must not be cached as "no
+// external" by a path that runs without that stub set.
+var stubbable = map[string]bool{}
+
+func inAnyStubSet(name string) bool { return stubbable[name] }
+
+func init() {
+	for _, set := range stubSets {
+		for k := range set {
+			stubbable[k] = true
+		}
+	}
 }
